@@ -509,15 +509,38 @@ def check_state_order_accessors(ctx: Ctx, rule: str):
         f = ctx.sm.func("ode.py", qn, required=False)
         if f is None:
             continue
-        v = util.value_of(ctx, f)
         key = f.key("every-path-sorted")
-        if av.has_unk(v):
+        unk = False
+        for everything in (False, True):
+            if everything:
+                # second chance: helpers expanded, the sources themselves kept as calls
+                A2 = av.AV(ctx.sm, inline=lambda callee, _s=sources: callee.qualname.split(".")[-1] not in _s, cha=True)
+                v = A2.returned(f)[0]
+            else:
+                v = util.value_of(ctx, f)
+            if av.has_unk(v):
+                unk = True
+                break
+            odd = []
+            for _c, leaf in _branches(v):
+                if leaf[0] == "raise":
+                    continue
+                if not any(m_[2] in sources for m_ in av.find_all(leaf, "mcall")):
+                    odd.append(leaf)
+            if not odd:
+                break
+        if unk:
             ctx.undecided(rule, key, f"what {qn} returns is not understood", f.where())
             continue
-        odd = []
-        for _c, leaf in _branches(v):
-            if leaf[0] == "raise":
-                continue
-            if not any(m_[2] in sources for m_ in av.find_all(leaf, "mcall")):
-                odd.append(leaf)
+        # a deviation is definite only when the path returns one of the name-sorted accessors (or a fresh sort)
+        named = [
+            leaf
+            for leaf in odd
+            if any(a_[-1] in ("state_derivatives", "states") for a_ in av.find_all(leaf, "attr"))
+            or any(isinstance(y_[1], str) and y_[1].split(".")[-1] in ("state_derivatives", "states") for y_ in av.find_all(leaf, "sym"))
+            or any(c_[1] == "sorted" for c_ in av.find_all(leaf, "call"))
+        ]
+        if odd and not named:
+            ctx.undecided(rule, key, f"a path of {qn} returns `{av.show(odd[0])[:80]}`, whose order is not understood", f.where())
+            continue
         ctx.check(not odd, rule, key, "every path returns (a filter / map of) the dependency-sorted assignments", f"{qn} returns `{av.show(odd[0])[:90] if odd else ''}` on some path, which is not derived from the dependency-sorted assignments: for those models the state slots of state_index / init_state_values differ from the slots rhs and the schemes write", f.where())
